@@ -87,7 +87,9 @@ func (nfs *Nfs) makeRootDir() {
 	if ip == nil {
 		panic("makeRootDir")
 	}
-	dir.MkRootDir(ip, op)
+	if !dir.MkRootDir(ip, op) {
+		panic("makeRootDir: no space")
+	}
 	ok := op.Commit()
 	if !ok {
 		panic("makeRootDir")
@@ -113,7 +115,7 @@ func markAlloc(super *super.FsSuper, n common.Bnum, m common.Bnum) {
 		super.NBlockBitmap*common.NBITBLOCK)
 	if n >= common.Bnum(common.NBITBLOCK) ||
 		m >= common.Bnum(common.NBITBLOCK*super.NBlockBitmap) ||
-		m < n {
+		m <= n {
 		panic("markAlloc: configuration makes no sense")
 	}
 	blk := make(disk.Block, disk.BlockSize)
